@@ -19,6 +19,7 @@ import (
 
 	wrapping "github.com/hashicorp/go-kms-wrapping/v2"
 	"github.com/hashicorp/go-kms-wrapping/v2/aead"
+	"github.com/hashicorp/go-kms-wrapping/v2/extras/multi"
 	"github.com/hashicorp/nodeenrollment"
 	"github.com/hashicorp/nodeenrollment/registration"
 	"github.com/hashicorp/nodeenrollment/rotation"
@@ -90,7 +91,18 @@ type ServerCfg struct {
 	RootOpts    []nodeenrollment.Option
 	// Wrap, if set, is applied to the back end; library calls then see the wrapped storage
 	Wrap func(nodeenrollment.Storage) nodeenrollment.Storage
+	// StorageWrapKind (with StorageWrap): "" aead | WrapPooled (a pool of aead wrappers whose encrypting
+	// key the operator rolls over: what was sealed earlier needs the key information stored with it
+	// to be opened) | WrapEnvelope (envelope encryption: a wrapped data key and IV travel with every
+	// sealed value; this test wrapper does not authenticate additional data)
+	StorageWrapKind string
 }
+
+// Storage wrapper kinds
+const (
+	WrapPooled   = "pooled"
+	WrapEnvelope = "envelope"
+)
 
 // Server is a server world
 type Server struct {
@@ -114,7 +126,19 @@ func NewServer(cfg ServerCfg) (*Server, error) {
 		s.Store = cfg.Wrap(inner)
 	}
 	if cfg.StorageWrap {
-		s.SW = NewAead("storage-wrapper-" + randHex(4))
+		switch cfg.StorageWrapKind {
+		case WrapPooled:
+			pool, err := multi.NewPooledWrapper(s.Ctx, NewAead("storage-wrapper-"+randHex(4)))
+			if err != nil {
+				cleanup()
+				return nil, err
+			}
+			s.SW = pool
+		case WrapEnvelope:
+			s.SW = wrapping.NewTestEnvelopeWrapper(RandBytes(32))
+		default:
+			s.SW = NewAead("storage-wrapper-" + randHex(4))
+		}
 	}
 	if cfg.RegWrap {
 		s.RW = NewAead("registration-wrapper-" + randHex(4))
@@ -126,6 +150,18 @@ func NewServer(cfg ServerCfg) (*Server, error) {
 		}
 	}
 	return s, nil
+}
+
+// Rollover makes a pooled storage wrapper encrypt under a new key from now on (the old keys stay
+// in the pool for what was sealed under them); a no-op for other wrappers
+func (s *Server) Rollover() {
+	pool, ok := s.SW.(*multi.PooledWrapper)
+	if !ok {
+		return
+	}
+	if _, err := pool.SetEncryptingWrapper(s.Ctx, NewAead("storage-wrapper-"+randHex(4))); err != nil {
+		panic(err)
+	}
 }
 
 // MustServer panics on error (harness setup failures are harness bugs)
